@@ -90,10 +90,8 @@ def record(ctx, preset, mode, runs, blocks, seed, label):
     if rc == 3:
         raise Infra("stakersim harness error: " + o[-1500:])
     if rc != 0:
-        if rc is not None and ("panic:" in o or "goroutine " in o):
-            rp = ctx.save_replay("panic-%s-%d.txt" % (label, seed), o[-20000:])
-            ctx.report("panic:" + label, "real code panicked in stakersim (%s): %s" % (label, o.strip().splitlines()[0:3]), rp)
-            return None
+        # panics of the real code are recovered inside the driver (call / snapshot / nextBlock) and logged as events;
+        # a dying driver process is harness trouble (simulator set-up, out of memory, an index error of the driver)
         raise Infra("stakersim failed rc=%s: %s" % (rc, o[-2000:]))
     cfg = json.load(open(os.path.join(out, "config.json")))
     cfg["strict"] = "chain" not in mode         # receipts of real transactions do not carry the revert reason
@@ -142,12 +140,15 @@ def run_trace_spec(ctx, prop, events, config, label, strict=True, proj=True):
     if r.timeout:
         raise Infra("trace validation timed out (%s, %d events)" % (label, len(events)))
     out = r.out
-    res = {"r": r, "own": None, "other": None, "proj": None, "invariant": None, "len": len(events),
+    res = {"r": r, "own": None, "other": [], "proj": None, "invariant": None, "len": len(events),
            "f4": [int(x) for x in re.findall(r'<<\s*"F4-OBSERVED",\s*(\d+)\s*>>', out)]}
-    for tag, key in (("MISMATCH-OWN", "own"), ("MISMATCH-OTHER", "other"), ("MISMATCH-PROJ", "proj")):
+    for tag, key in (("MISMATCH-OWN", "own"), ("MISMATCH-PROJ", "proj")):
         m = re.search(r'<<\s*"%s",\s*(\d+),\s*"(\w+)",\s*(\{.*?\})\s*>>\s*\n(?=\S)' % tag, out, flags=re.S)
         if m:
             res[key] = (int(m.group(1)), m.group(2), " ".join(m.group(3).split()))
+    # deviations in the other property's getters: noted (once per history), validation went on
+    res["other"] = [(int(a), b, " ".join(c.split())) for a, b, c in
+                    re.findall(r'<<\s*"MISMATCH-OTHER",\s*(\d+),\s*"(\w+)",\s*(\{.*?\})\s*>>\s*\n(?=\S)', out, flags=re.S)]
     if r.invariant:
         # TLC printed the behaviour; the last state tells which event was being consumed
         ls = re.findall(r"^/\\ l = (\d+)", out, flags=re.M)
@@ -158,13 +159,55 @@ def run_trace_spec(ctx, prop, events, config, label, strict=True, proj=True):
     if not m:
         raise Infra("trace spec did not report a high-water mark (TLC error: %s)\n%s" % (r.error, out[-3000:]))
     res["consumed"] = int(m[-1][0])
-    if res["consumed"] == len(events) and not res["own"] and not res["other"] and not res["proj"] and (r.error or r.rc != 0):
+    if res["consumed"] == len(events) and not res["own"] and not res["proj"] and (r.error or r.rc != 0):
         raise Infra("TLC error during trace validation: %s\n%s" % (r.error, out[-3000:]))
-    if res["consumed"] < len(events) and not res["own"] and not res["other"] and not res["proj"]:
+    if res["consumed"] < len(events) and not res["own"] and not res["proj"]:
+        res["stuck"] = res["consumed"]          # event not enabled in the specification (or not evaluable)
         if r.error and "Postcondition" not in out:
-            raise Infra("TLC evaluation error during trace validation: %s\n%s" % (r.error, out[-3000:]))
-        res["stuck"] = res["consumed"]          # event not enabled in the specification
+            res["stuck_error"] = r.error
     return res
+
+
+# Where to look when the real code and Staker.tla disagree: the operator of the specification and the Go statements it
+# transcribes, by event type and by the kind of getter that differs.  Stored in every artefact so that a transcription
+# slip of the specification (exit 2 material) is recognisable from a defect of the code.
+WHERE_EVENT = {
+    "AddValidation": "Staker.tla OpAddValidation, ListAdd <-> staker.go AddValidation; validation/service.go Add; linked_list.go listStats.Add; globalstats AddQueued",
+    "IncreaseStake": "Staker.tla OpIncreaseStake, StakeIncreaseMsg, RenAdd <-> staker.go IncreaseStake, validateStakeIncrease; validation/service.go IncreaseStake; renewal_list.go Add",
+    "DecreaseStake": "Staker.tla OpDecreaseStake <-> staker.go DecreaseStake; validation/service.go DecreaseStake",
+    "SignalExit": "Staker.tla OpSignalExit, FreeExit, SvcSignalExit, CurIter <-> staker.go SignalExit; validation/service.go SignalExit, SetExitBlock; validation.go CurrentIteration",
+    "WithdrawStake": "Staker.tla OpWithdrawStake, CooldownEnded, ListRemove <-> staker.go WithdrawStake; validation/service.go WithdrawStake; aggregation Exit; globalstats Remove*",
+    "SetBeneficiary": "Staker.tla OpSetBeneficiary <-> staker.go SetBeneficiary",
+    "AddDelegation": "Staker.tla OpAddDelegation, StakeIncreaseMsg, Weight <-> staker.go AddDelegation; delegation/service.go Add; aggregation AddPendingVET",
+    "SignalDelegationExit": "Staker.tla OpSignalDelegationExit, Started, Ended <-> staker.go SignalDelegationExit; delegation.go Started/Ended; aggregation SignalExit",
+    "WithdrawDelegation": "Staker.tla OpWithdrawDelegation <-> staker.go WithdrawDelegation; delegation/service.go Withdraw; aggregation SubPendingVet",
+    "SetOnline": "Staker.tla OpSetOnline <-> validation/service.go UpdateOfflineBlock",
+    "Block": "Staker.tla SyncPOS, ComputeTransition, ApplyTransition (RenewOne/ValRenew/AggRenew, ExitOne, EvictOne, ActivateOne, "
+             "ActivationCount) <-> protocol.go SyncPOS; transition.go transition; housekeep.go computeEpochTransition, "
+             "evictionCallback, computeActivationCount, applyEpochTransition, activateNextValidation; validation.go renew/exit; "
+             "aggregation.go renew/exit; globalstats ApplyRenewal/ApplyExit; validation/service.go ActivateValidator, ExitValidator",
+    "GenesisHousekeep": "Staker.tla HousekeepAt <-> genesis/customnet.go PostCallState Housekeep(0)",
+}
+WHERE_KIND = {
+    "exits": "FreeExit / SvcSignalExit <-> SetExitBlock (probing forward by one epoch)",
+    "getWithdrawable": "CalcWithdrawable, CooldownEnded <-> validation.go CalculateWithdrawableVET",
+    "totals": "Trace_Staker.tla Totals <-> validation.go Totals",
+    "activeList": "ListAdd / ListRemove / Walk <-> linked_list.go Add / Remove / Iterate",
+    "queuedList": "ListAdd / ListRemove / Walk <-> linked_list.go Add / Remove / Iterate",
+    "leaderGroup": "Trace_Staker.tla LeaderGroup <-> validation/service.go LeaderGroup",
+    "del": "Started / Ended / IsLocked / CurIter <-> delegation.go, validation.go CurrentIteration",
+    "agg": "AggRenew / ExitOne / OpAddDelegation <-> aggregation.go renew / exit, service.go",
+    "g": "GRenew / ExitOne / Op* counter updates <-> globalstats/service.go",
+    "result.ok": "the revert conditions of the operation, in the order of the Go code",
+    "result.amt": "amount returned by the withdraw / id returned by AddDelegation",
+    "result.status": "SyncPOS status (Active, Updates) <-> protocol.go, housekeep.go HasUpdates",
+}
+
+
+def where_to_look(event_type, kinds):
+    out = [WHERE_EVENT.get(event_type, "?")]
+    out += ["%s: %s" % (k, WHERE_KIND[k]) for k in sorted(kinds) if k in WHERE_KIND]
+    return out
 
 
 def _locate(hists, pending, idx):
@@ -189,13 +232,14 @@ def validate_recording(ctx, prop, rec, label):
     guard = 0
     how = {"driver": "harness/cmd/stakersim", "argv": rec["argv"], "config": rec["config"]}
 
-    def artefact(k, off, why):
+    def artefact(k, off, why, kinds=()):
         h = hists[k]
+        et = h[off]["e"] if 0 <= off < len(h) else "?"
         return ctx.save_replay("%s-%s-hist%d-seed%s.json" % (prop, label, k, h[0].get("seed")),
                                {"how": how, "property": prop, "offending_index": off,
                                 "offending_event": {x: y for x, y in h[off].items() if x != "post"} if 0 <= off < len(h) else None,
-                                "verdict": why, "stats": stats[k] if k < len(stats) else None, "config": rec["config"],
-                                "trace": h})
+                                "verdict": why, "where_to_look": where_to_look(et, kinds),
+                                "stats": stats[k] if k < len(stats) else None, "config": rec["config"], "trace": h})
 
     while pending:
         guard += 1
@@ -217,6 +261,14 @@ def validate_recording(ctx, prop, rec, label):
                 ctx.report(F4_SIGNATURE, "%s: history %d (%s, seed %s): event #%d Block %s runs the exit of the only active "
                            "validator with an empty queue -> LeaderGroupSize 0, IsPoSActive false"
                            % (label, k, hists[k][0].get("mode"), hists[k][0].get("seed"), off, ev.get("n")), rp)
+        # deviations that show only in the other property's getters: noted, validation went on with this property's
+        diverged = {}
+        for i, et, txt in res["other"]:
+            k, off = _locate(hists, pending, i)
+            if k is not None and k not in diverged:
+                diverged[k] = off
+                ctx.cov.setdefault("other_property_deviations_noted", []).append(
+                    {"batch": label, "history": k, "event": off, "type": et, "what": txt[:300]})
         bad = None
         if res["invariant"]:
             name, i = res["invariant"]
@@ -242,22 +294,16 @@ def validate_recording(ctx, prop, rec, label):
                 strict = False
                 continue
             ev = {x: y for x, y in hists[k][off].items() if x != "post"}
-            rp = artefact(k, off, "deviation from Staker.tla in %s getters: %s" % (prop, txt[:2000]))
+            after = ""
+            if k in diverged:
+                after = " [the history had already left the model in the other property's getters at event #%d]" % diverged[k]
+            rp = artefact(k, off, "deviation from Staker.tla in %s getters: %s%s" % (prop, txt[:2000], after), kinds)
             sig = "deviation:%s:%s" % (et, "+".join(sorted(kinds))[:80])
             ctx.report(sig, "%s: history %d (%s, seed %s) event #%d %s: the real code and Staker.tla disagree (specification, "
-                       "implementation): %s" % (label, k, hists[k][0].get("mode"), hists[k][0].get("seed"), off,
-                                                json.dumps(ev, sort_keys=True), txt[:1200]), rp)
+                       "implementation): %s%s; look at: %s" % (label, k, hists[k][0].get("mode"), hists[k][0].get("seed"), off,
+                                                json.dumps(ev, sort_keys=True), txt[:1200], after, where_to_look(et, kinds)[0][:300]), rp)
             bad = k
             verdict[k] = sig
-        elif res["other"]:
-            i, et, txt = res["other"]
-            k, off = _locate(hists, pending, i)
-            if k is None:
-                raise Infra("deviation reported but offending history not found (index %d)" % i)
-            ctx.cov.setdefault("histories_given_up_other_property", []).append(
-                {"batch": label, "history": k, "event": off, "type": et, "what": txt[:300]})
-            bad = k
-            verdict[k] = "other-property"
         elif res["proj"]:
             # an internal projection differs while every observable agrees: specification drift, not a violation;
             # keep validating the observables and say so at the end (exit 2 unless a violation is found)
@@ -268,17 +314,24 @@ def validate_recording(ctx, prop, rec, label):
         elif "stuck" in res:
             k, off = _locate(hists, pending, res["stuck"])
             ev = {x: y for x, y in hists[k][off].items() if x != "post"} if k is not None else None
-            raise Infra("event not enabled in Trace_Staker although every getter agreed so far (specification drift): "
-                        "%s history %s event #%s %s" % (label, k, off, json.dumps(ev, sort_keys=True)))
+            if k is not None and k in diverged:
+                # after a deviation in the other property's getters the model may not be able to follow any further
+                bad = k
+                verdict[k] = "other-property"
+                ctx.cov["histories_given_up_other_property"] = ctx.cov.get("histories_given_up_other_property", 0) + 1
+            else:
+                raise Infra("event not enabled / not evaluable in Trace_Staker although every getter agreed so far "
+                            "(specification drift): %s history %s event #%s %s %s"
+                            % (label, k, off, json.dumps(ev, sort_keys=True), res.get("stuck_error", "")))
         if bad is None:
             for k in pending:
-                verdict.setdefault(k, "accepted")
+                verdict.setdefault(k, "accepted" if k not in diverged else "accepted-own-getters")
             ctx.cov["states"] += res["r"].distinct
             ctx.cov["transitions"] += res["r"].generated
             break
         idx = pending.index(bad)
         for k in pending[:idx]:
-            verdict.setdefault(k, "accepted")
+            verdict.setdefault(k, "accepted" if k not in diverged else "accepted-own-getters")
         ctx.cov["rejected_histories"] = ctx.cov.get("rejected_histories", 0) + 1
         pending = pending[idx + 1:]
     return hists, verdict
@@ -320,7 +373,7 @@ def histories(ctx, prop, plan):
         if rec is None:
             continue
         hists, verdict = validate_recording(ctx, prop, rec, label)
-        ok = [k for k, v in verdict.items() if v in ("accepted", "f4")]
+        ok = [k for k, v in verdict.items() if v in ("accepted", "accepted-own-getters", "f4")]
         accepted += len(ok)
         all_stats += [rec["stats"][k] for k in sorted(verdict)]
         for k in ok[:1]:
